@@ -88,11 +88,11 @@ def run_shard(shard, ctx, tier):
                 guarded_check(mod, {'bag': [i] + list(rest)}, ctx)
 
 
-def make_line(rows, shift=None):
+def make_line(rows, shift=None, dtype=np.float64):
     from scipy import sparse
     from pero_ocr.core.layout import TextLine
     T = len(rows)
-    M = np.zeros((T, 3))
+    M = np.zeros((T, 3), dtype=dtype)
     for t, r in enumerate(rows):
         for c, v in enumerate(ROWS[r]):
             if v is not None:
@@ -183,6 +183,34 @@ def check_matrix(case, ctx):
             ctx.violation('invariant-to-per-frame-shift', f'{K}/line_confident_enough/shift', f'rows {rows}, shift {sh}: {r1} -> {r2}')
             break
 
+    # ---- the logits as the engines store them (float32, sparse): same confidences, and the stored logits are only read
+    l32 = make_line(rows, dtype=np.float32)
+    keep = l32.logits.toarray().copy()
+    c32 = float(PageParser.compute_line_confidence(l32))
+    c32b = float(PageParser.compute_line_confidence(l32))
+    ctx.executed(2)
+    if abs(c32 - clc) > 1e-5 or c32b != c32:
+        ctx.violation('computed-from-the-lines-own-posteriors', f'{K}/compute_line_confidence/float32',
+                      f'rows {rows}: float32 logits give {c32} (again: {c32b}), float64 logits {clc}')
+        return
+    for labels in ([0], [1], [0, 1]):
+        if len(labels) > T:
+            continue
+        try:
+            g32 = np.asarray(get_line_confidence(l32, np.asarray(labels)), dtype=float)
+            g64 = np.asarray(get_line_confidence(line, np.asarray(labels)), dtype=float)
+        except ValueError:
+            continue
+        ctx.executed(2)
+        if g32.shape != g64.shape or np.abs(g32 - g64).max() > 1e-5:
+            ctx.violation('computed-from-the-lines-own-posteriors', f'{K}/get_line_confidence/float32',
+                          f'rows {rows}, labels {labels}: float32 logits give {g32}, float64 logits {g64}')
+            return
+    if not np.array_equal(l32.logits.toarray(), keep) or l32.logits.dtype != np.float32:
+        ctx.violation('computed-from-the-lines-own-posteriors', f'{K}/confidence-call-modifies-stored-logits',
+                      f'rows {rows}: the logits stored on the line changed while computing confidences')
+        return
+    ctx.tag('float32-logits')
     # ---- history on one TextLine object: after new logits are assigned, every confidence is computed from the NEW logits
     rows2 = [(r + 1 + t) % len(ROWS) for t, r in enumerate(rows)]
     if rows2 != list(rows):
@@ -381,6 +409,6 @@ def describe(tier):
         'assumptions': ['tolerance 1e-9 on shift invariance and normalisation', 'alignment is computed once and reused for the shifted copy, '
                         'so that round-off cannot flip a tie in the alignment'],
         'min_nontrivial': 100,
-        'required_tags': ['cropped-window-call', 'lines-with-more-than-1000-frames', 'logits-reassigned-on-a-live-line', 'aligned-ctc-line', 'one-hot-line', 'one-frame-per-label-line', 'threshold-grid-splits',
+        'required_tags': ['cropped-window-call', 'float32-logits', 'lines-with-more-than-1000-frames', 'logits-reassigned-on-a-live-line', 'aligned-ctc-line', 'one-hot-line', 'one-frame-per-label-line', 'threshold-grid-splits',
                           'bag-weight-changed-between-queries'],
     }
